@@ -30,6 +30,8 @@ def run(repo, rep):
              'in the proposed list, bound to the reply\'s transfer syntax', 1)
     rep.rule('C11.Q6', 'the accepted-context tables are per-association objects: contexts accepted in an earlier association '
              'are not usable in a later one', 1)
+    rep.rule('C11.Q7', 'no one-shot iterator over the configured SOP classes / contexts is consumed twice on the way from the '
+             'configuration to the proposal (the second consumer would see nothing and contexts would silently be dropped)', 1)
     rep.rule('C11.Q4', 'get_scu binds the stored (context id, transfer syntax) and turns a missing entry into ClassNotSupportedError', 1)
 
     # ---------------------------------------------------------------- Q1
@@ -424,3 +426,21 @@ def run(repo, rep):
     p6 = per_instance_problems(repo, rq)
     rep.check(not p6, 'C11.Q6', 'asceprovider:AssociationRequester:tables-per-association', rq.loc(),
               'accepted-context tables are created per association', '; '.join(p6))
+
+    # ---------------------------------------------------------------- Q7: one-shot iterators
+    from ..pitfalls import oneshot_reuse
+    p7 = []
+    n7 = 0
+    for cname_, mname_ in (('AEBase', 'update_context_def_list'), ('AEBase', '_build_context_def_list'), ('AEBase', 'add_scu'),
+                           ('AE', 'add_scp'), ('AEBase', 'copy_context_def_list')):
+        fn_ = repo.cls('applicationentity', cname_).find_method(mname_)
+        if fn_ is not None:
+            n7 += 1
+            p7 += oneshot_reuse(repo, fn_)
+    for fn_ in [repo.func('asceprovider', 'build_pres_context_def_list'), rq.find_method('_request'), rq.find_method('request')]:
+        if fn_ is not None:
+            n7 += 1
+            for hf in repo.helper_closure(fn_):
+                p7 += oneshot_reuse(repo, hf)
+    rep.check(not p7, 'C11.Q7', 'applicationentity:context-configuration:iterators', ae.loc(),
+              '%d functions consume no one-shot iterator twice' % n7, '; '.join(sorted(set(p7))))
